@@ -13,7 +13,8 @@ Definition warm_tk (t : tk) (r : Z) : tk :=
 (** the set-up of the restarted run: same files, same table, same constants, clock from the restart time *)
 Definition warm_setup (s : setup) (r : Z) : setup :=
   {| s_tk := warm_tk (s_tk s) r; s_files := s_files s; s_tab := s_tab s; s_cont := s_cont s; s_period := s_period s;
-     s_dtdx := s_dtdx s; s_lo := s_lo s; s_hi := s_hi s; s_life := s_life s; s_cfac := s_cfac s |}.
+     s_dtdx := s_dtdx s; s_lo := s_lo s; s_hi := s_hi s; s_life := s_life s; s_cfac := s_cfac s;
+     s_land := s_land s |}.
 
 (** the releaser of a warm start *)
 Definition mw_rows (s : setup) (n : Z) : list row :=
